@@ -353,6 +353,10 @@ func (s *Store) Tag(ctx context.Context, desc ocispec.Descriptor, reference stri
 	if err := validateReference(reference); err != nil {
 		return err
 	}
+	// a reference in digest form addresses content: it can only name desc itself
+	if dgst := digest.Digest(reference); dgst != desc.Digest && dgst.Validate() == nil {
+		return fmt.Errorf("%s: a digest cannot be a tag of %s: %w", reference, desc.Digest, errdef.ErrInvalidReference)
+	}
 
 	exists, err := s.storage.Exists(ctx, desc)
 	if err != nil {
